@@ -46,11 +46,21 @@ func NewFileStorage(dir string) (Storage, error) {
 func (f *fileStorage) Set(key string, value []byte) error {
 	path := f.filePathToFile(key)
 
-	// The name of the temporary file is unique and cannot be the file of another key:
-	// it is hidden, and its end never matches a key suffix like ".entity".
-	tmp := filepath.Join(f.dir(), fmt.Sprintf(".tmp-%s-%d-%d", filepath.Base(path), os.Getpid(), atomic.AddUint64(&tmpFileCount, 1)))
-
-	file, err := os.OpenFile(tmp, os.O_WRONLY|os.O_CREATE|os.O_EXCL|os.O_TRUNC, 0666)
+	// The temporary file is hidden and its name is short (a long key stays a valid file name) and
+	// never ends like a key suffix (".entity"). A name which is already taken – by a leftover of
+	// a process with the same pid which died, or by another key – is skipped.
+	var (
+		tmp  string
+		file *os.File
+		err  error
+	)
+	for i := 0; i < 10000; i++ {
+		tmp = filepath.Join(f.dir(), fmt.Sprintf(".tmp-%d-%d", os.Getpid(), atomic.AddUint64(&tmpFileCount, 1)))
+		file, err = os.OpenFile(tmp, os.O_WRONLY|os.O_CREATE|os.O_EXCL|os.O_TRUNC, 0666)
+		if !os.IsExist(err) {
+			break
+		}
+	}
 	if err != nil {
 		return err
 	}
